@@ -323,3 +323,84 @@ def fill_coverage(run, st, stats, v, lines, families):
         "client packets are tokenised with ch-go's own decoders (their exact layout is the subject of C02)",
         "TLC 1.8.0 evaluates the specification correctly",
     ]
+
+
+# --------------------------------------------------------------------------------------
+# free-running runs (no gates, no hooks): outcomes must be reachable in the model
+
+
+def outcome_reachability(pid, outcomes, name="outcome"):
+    """For every distinct (configuration, outcome) TLC searches QueryLifecycle.tla (Outcome_QL.tla) for a returned
+    state with the observed error class, closed flag, callback log (and wire, when recorded).
+    Returns (number of distinct pairs, list of (event, verdict) that are not reachable)."""
+    distinct = {}
+    for e in outcomes:
+        if e.get("startClosed"):
+            continue   # judged by Trace_SessionSeq: nothing of the model runs
+        k = json.dumps([e["cfg"], e["err"], e["closed"], e["cbs"], e.get("wire"), e["foreignCloseAsked"], e["cancelAsked"]], sort_keys=True)
+        distinct.setdefault(k, e)
+    d = V.stage_spec(V.workdir(pid, name))
+
+    def reach(item):
+        i, e = item
+        if e["stuck"]:
+            return e, "stuck"
+        tf = os.path.join(d, "o%05d.ndjson" % i)
+        with open(tf, "w") as f:
+            f.write(json.dumps(e) + "\n")
+        cancel = e["cancelAsked"] or e["cfg"]["rcancel"] or any(p["op"] == "cancel" for p in e["cfg"]["plan"])
+        cfgf = "Outcome_QL_c%s_f%s.cfg" % ("TRUE" if cancel else "FALSE", "TRUE" if e["foreignCloseAsked"] else "FALSE")
+        r = V.tlc(d, "Outcome_QL", cfgf, workers=1, timeout=900, env={"TRACE": tf})
+        if r.violated_invariant == "NotObserved":
+            return e, "reachable"
+        if r.completed:
+            return e, "unreachable"
+        return e, "tlc: " + r.summary()
+    with cf.ThreadPoolExecutor(max_workers=V.NCPU) as ex:
+        verdicts = list(ex.map(reach, enumerate(distinct.values())))
+    bad = []
+    for e, vd in verdicts:
+        if vd == "reachable":
+            continue
+        if vd.startswith("tlc"):
+            raise V.Inconclusive("outcome reachability search failed: %s" % vd)
+        bad.append((e, vd))
+    return len(distinct), bad
+
+
+def free_sessions(run, pid, drv, sessions, name="sessions"):
+    """Several requests on one client, free-running (lib: RunFreeSession): per request the outcome and the packets it
+    wrote must be reachable in QueryLifecycle.tla from a fresh query state; the chain of requests is validated by
+    Trace_SessionSeq.tla."""
+    wd = V.workdir(pid, name)
+    nproc = 4
+    jobs = []
+    for i in range(nproc):
+        part = sessions[i::nproc]
+        if not part:
+            continue
+        fin = os.path.join(wd, "in%02d.ndjson" % i)
+        with open(fin, "w") as f:
+            f.write("\n".join(json.dumps(c) for c in part) + "\n")
+        jobs.append((fin, os.path.join(wd, "out%02d.ndjson" % i)))
+    with cf.ThreadPoolExecutor(max_workers=len(jobs)) as ex:
+        res = list(ex.map(lambda j: V.run_driver(drv, ["free", "-in", j[0], "-out", j[1], "-par", "4"], timeout=2400), jobs))
+    lines = []
+    for j, (rc, so, se, wall) in zip(jobs, res):
+        if rc != 0:
+            raise V.Inconclusive("free driver failed rc=%d: %s" % (rc, (se or so)[-3000:]))
+        lines += V.read_ndjson(j[1])
+    outs = [json.loads(x) for x in lines]
+    ndist, bad = outcome_reachability(pid, outs, name=name + "-reach")
+    for e, vd in bad:
+        key = "session:%s:%s:%s" % (e["cfg"]["scn"], e["err"], "closed" if e["closed"] else "open")
+        run.violation(key, "request %d of session %s (script %s, cancel=%s, foreignClose=%s) ended in err=%s closed=%s callbacks=%s wire=%s%s - QueryLifecycle.tla cannot reach that from an open client at a packet boundary" % (
+            e["seq"], e.get("session"), [i["k"] for i in e["cfg"]["script"]], e["cancelAsked"], e["foreignCloseAsked"], e["err"], e["closed"],
+            [(c["cb"], c["id"]) for c in e["cbs"]], [t["k"] for t in e.get("wire", [])], " (stuck: %s)" % e["stuck"] if e["stuck"] else ""), e)
+    # the chain: lines of one session are consecutive, in order
+    v = V.validate_traces(pid, "Trace_SessionSeq", "Trace_SessionSeq.cfg", lines, lambda l: '"seq":1,' in l or l.rstrip().endswith('"seq":1}'), timeout=900,
+                          name="tv-" + name, nshards=4)
+    run.add_trace_rejections(v, lambda rj: "session:chain", lambda rj: "requests of one session do not chain (a request on a closed client must fail with the closed error, run no callback and write nothing): %s" % (rj["line"] or "")[:300])
+    V.log("  %d free-running sessions, %d requests, %d distinct (configuration, outcome, wire) triples: %d not reachable; chain: %d lines, %d rejected" % (
+        len(sessions), len(outs), ndist, len(bad), v.lines, len(v.rejections)))
+    return outs
